@@ -148,7 +148,9 @@ func (hs *serverHandshakeState) readClientHello() (isResume bool, err error) {
 	}
 
 	c.vers, ok = c.config.mutualVersion(hs.clientHello.vers)
-	if !ok {
+	if !ok || c.vers < VersionSSL30 {
+		// values below SSL 3.0 (among them the GMSSL number 0x0101, the
+		// configuration's shared minimum) are not versions of this protocol
 		c.sendAlert(alertProtocolVersion)
 		return false, fmt.Errorf("tls: client offered an unsupported, maximum protocol version of %x", hs.clientHello.vers)
 	}
